@@ -28,6 +28,8 @@ var vkKeyAlphabet = []string{
 	"ads.test", "ADS.Test.", "*.cdn.test", "test", "sub.ads.test.",
 	"a#b.test", "#hash.test", "two words.test", "tab\there.test", "trail.test #note", " lead.test",
 	"x\\.y.test", "*.a#b.test", "0.0.0.0 hosts.test", ".", "*.",
+	// a key that ends in a backslash: the final dot the canonical form appends becomes an ESCAPED dot
+	"trail.test\\", "*.wild.test\\",
 	// longer than any domain name can be and than one line the list loader reads (64 KiB)
 	strings.Repeat("a", 70000) + ".test",
 }
@@ -180,7 +182,15 @@ func TestVerifC18Keys(t *testing.T) {
 						long = long || len(k) > 1024
 					}
 				}
+				bsl := false
+				for _, o := range h {
+					for _, k := range o.Keys {
+						bsl = bsl || strings.HasSuffix(k, "\\")
+					}
+				}
 				switch {
+				case bsl:
+					cls = "trailing-backslash"
 				case long:
 					cls = "overlong-key"
 				case strings.Contains(last, "#"):
